@@ -1988,6 +1988,15 @@ void CheckCondition::checkCompareValueOutOfTypeRange()
                     continue;
                 if (typeTok->isLiteral())
                     continue;
+                // a signed operand that the usual arithmetic conversions turn into an unsigned type does not keep its value range
+                if (typeTok->valueType()->sign == ValueType::Sign::SIGNED && valueTok->valueType() &&
+                    valueTok->valueType()->sign == ValueType::Sign::UNSIGNED && valueTok->valueType()->pointer == 0) {
+                    const size_t intSize = mSettings->platform.sizeof_int;
+                    const size_t typeSize = std::max(intSize, typeTok->valueType()->getSizeOf(*mSettings, ValueType::Accuracy::ExactOrZero, ValueType::SizeOf::Pointer));
+                    const size_t valueSize = valueTok->valueType()->getSizeOf(*mSettings, ValueType::Accuracy::ExactOrZero, ValueType::SizeOf::Pointer);
+                    if (valueSize >= typeSize)
+                        continue;
+                }
                 std::uint8_t bits = 0;
                 switch (typeTok->valueType()->type) {
                 case ValueType::Type::BOOL:
